@@ -326,6 +326,84 @@ func ruleL16(p *Prog, r *Report) {
 		}
 	}
 
+	// lateStateChange: a change of the object's state (inlined flag, extra data) reachable from `from`
+	// (where getPrefixSize was evaluated) that is not followed by a new size on every way out.
+	lateStateChange := func(f *ssa.Function, ownerV ssa.Value, from ssa.Instruction) ssa.Instruction {
+		isStateChange := func(z ssa.Instruction) bool {
+			switch y := z.(type) {
+			case *ssa.Store:
+				if fr, ok := asFieldAddr(y.Addr); ok && (fr.Field == "inlined" || fr.Field == "extraData") && sameValue(fr.Base, ownerV) {
+					return true
+				}
+			case ssa.CallInstruction:
+				if nm := calleeName(y); nm == "SetExtraData" || nm == "RemoveExtraData" {
+					if rv := callRecv(y); rv != nil && sameValue(rv, ownerV) {
+						return true
+					}
+				}
+			}
+			return false
+		}
+		isSizeStore := func(z ssa.Instruction) bool {
+			s2, ok := z.(*ssa.Store)
+			if !ok || z == from {
+				return false
+			}
+			fa2, ok := s2.Addr.(*ssa.FieldAddr)
+			if !ok {
+				return false
+			}
+			if _, fn := structFieldName(fa2.X.Type(), fa2.Field); fn != "size" {
+				return false
+			}
+			if in3, ok := fa2.X.(*ssa.FieldAddr); ok {
+				return sameValue(in3.X, ownerV)
+			}
+			return sameValue(fa2.X, ownerV)
+		}
+		var late ssa.Instruction
+		reachFrom(f, from, nil, func(z ssa.Instruction) bool {
+			if late != nil {
+				return true
+			}
+			if z != from && isStateChange(z) {
+				if successReturnAvoiding(f, z, isSizeStore) != nil {
+					late = z
+				}
+				return true
+			}
+			return false
+		})
+		return late
+	}
+	latePos := func(late ssa.Instruction) string {
+		if late == nil {
+			return ""
+		}
+		return p.InstrPos(late)
+	}
+	// prefixCallOn: the getPrefixSize call on ownerV inside a size expression
+	var prefixCallOn func(v ssa.Value, ownerV ssa.Value, depth int) *ssa.Call
+	prefixCallOn = func(v ssa.Value, ownerV ssa.Value, depth int) *ssa.Call {
+		if v == nil || depth > 20 {
+			return nil
+		}
+		switch x := canonConv(v).(type) {
+		case *ssa.Call:
+			if calleeName(x) == "getPrefixSize" {
+				if rv := callRecv(x); rv != nil && sameValue(rv, ownerV) {
+					return x
+				}
+			}
+		case *ssa.BinOp:
+			if c := prefixCallOn(x.X, ownerV, depth+1); c != nil {
+				return c
+			}
+			return prefixCallOn(x.Y, ownerV, depth+1)
+		}
+		return nil
+	}
+
 	for _, f := range funcs {
 		if scope[f] {
 			continue // decoders: L2
@@ -418,6 +496,15 @@ func ruleL16(p *Prog, r *Report) {
 				// a list that is not a literal contributes a variable term only
 				if l, ok := literalLen(litField(f, al, k.listField)); ok {
 					ll = l
+				}
+			}
+			if k.dataSlab {
+				if pc := prefixCallOn(sizeV, al, 0); pc != nil {
+					late := lateStateChange(f, al, pc)
+					n++
+					r.Decide(late == nil, R, "prefix-of-final-state:"+p.Name(f)+":"+k.owner, p.InstrPos(pc),
+						"the state the prefix was computed for (inlined flag, extra data) is not changed afterwards",
+						"the size is set from getPrefixSize() and the object's inlined flag / extra data is changed afterwards ("+latePos(late)+") without establishing the size again: the slab reports the prefix of a state it is not in")
 				}
 			}
 			check(k, sizeV, pairs, true, ll, cons, p.InstrPos(in))
@@ -516,6 +603,13 @@ func ruleL16(p *Prog, r *Report) {
 					for _, s := range allStates {
 						pairs = append(pairs, pair{s, s})
 					}
+					// ... of the state that holds when it is called: the object's state (inlined flag, extra data)
+					// must not change afterwards unless the size is established again
+					late := lateStateChange(f, ownerV, in)
+					n++
+					r.Decide(late == nil, R, "prefix-of-final-state:"+p.Name(f)+":"+k.owner, p.InstrPos(in),
+						"the state the prefix was computed for (inlined flag, extra data) is not changed afterwards",
+						"the size is set from getPrefixSize() and the object's inlined flag / extra data is changed afterwards ("+latePos(late)+") without establishing the size again: the slab reports the prefix of a state it is not in")
 				case setsExtra || removesExtra:
 					forall = false
 					if setsExtra {
